@@ -208,4 +208,164 @@ theorem eval_static (p : SKProvider) (hp : ProviderOK p) (env1 env2 : EvalEnv) (
     | (simp_all [eval, evalArgs, evalBlock]; intro v c' h; split at h <;> cases h)
     | skip))
 
+/-! ## the one-directional form: a definite result survives the refinement of unknown answers -/
+
+/-- the second environment answers every known query the first answers definitely, identically -/
+structure AgreeLe (p : SKProvider) (env1 env2 : EvalEnv) : Prop where
+  var : ∀ l path, p.queryVariable l path = true → ∀ v, env1.var l path = .ok v → v ≠ .unknown → env2.var l path = .ok v
+  fn : ∀ n vs c, env2.fn (.asmBuiltin n) vs c = env1.fn (.asmBuiltin n) vs c
+  callee : ∀ n, p.queryFunction n = true → isBuiltinName n = false →
+    ∃ n', env1.var 0 [n] = .ok (.asmBuiltin n') ∧ env2.var 0 [n] = .ok (.asmBuiltin n')
+
+theorem ne_unknown_of_not_propagate {v : Value} (h : ¬ v.shouldPropagate = true) : v ≠ .unknown := by
+  intro e; subst e; exact h rfl
+
+def Value.isUnk : Value → Bool
+  | .unknown => true
+  | _ => false
+
+theorem isUnk_of_not_propagate (v : Value) (h : v.shouldPropagate = false) : v.isUnk = false := by
+  cases v <;> simp_all [Value.isUnk, Value.shouldPropagate]
+
+theorem isUnk_failed (m : String) : (Value.failed m).isUnk = false := rfl
+theorem isUnk_void : Value.void.isUnk = false := rfl
+theorem isUnk_int (b : BI) : (Value.int b).isUnk = false := rfl
+theorem isUnk_str (s : List Char) (e : Enc) : (Value.str s e).isUnk = false := rfl
+theorem isUnk_bool (b : Bool) : (Value.bool b).isUnk = false := rfl
+theorem isUnk_builtin (n : String) : (Value.builtin n).isUnk = false := rfl
+theorem isUnk_asmBuiltin (n : String) : (Value.asmBuiltin n).isUnk = false := rfl
+theorem isUnk_fn (n : Nat) : (Value.fn n).isUnk = false := rfl
+theorem isUnk_unknown : Value.unknown.isUnk = true := rfl
+
+theorem callee_eval' (p : SKProvider) (env1 env2 : EvalEnv)
+    (hc : ∀ n, p.queryFunction n = true → isBuiltinName n = false →
+      ∃ n', env1.var 0 [n] = .ok (.asmBuiltin n') ∧ env2.var 0 [n] = .ok (.asmBuiltin n'))
+    (c : ECtx) (n : String)
+    (hkn : (builtinStaticallyKnownValue n || p.queryFunction n) = true) (hinv : CtxInv p c) :
+    ∃ fv, eval env1 c (.var 0 [n]) = .ok (fv, c) ∧ eval env2 c (.var 0 [n]) = .ok (fv, c) ∧ fv.shouldPropagate = false ∧
+      (fv = .builtin n ∨ ∃ n', fv = .asmBuiltin n') := by
+  by_cases hb : isBuiltinName n = true
+  · exact ⟨.builtin n, by simp [eval, hb], by simp [eval, hb], rfl, Or.inl rfl⟩
+  · have hq : p.queryFunction n = true := by
+      cases h1 : builtinStaticallyKnownValue n with
+      | true => exact absurd (builtinKnown_isBuiltin n h1) hb
+      | false => simpa [h1] using hkn
+    have hl := hinv.1 n hq
+    obtain ⟨n', e1, e2⟩ := hc n hq (by simpa using hb)
+    refine ⟨.asmBuiltin n', ?_, ?_, rfl, Or.inr ⟨n', rfl⟩⟩
+    · simp [eval, hb, hl, e1, Except.map]
+    · simp [eval, hb, hl, e2, Except.map]
+
+theorem call_static_le (p : SKProvider) (env1 env2 : EvalEnv) (ag : AgreeLe p env1 env2) (c : ECtx) (n : String) (args : List Expr)
+    (hkn : (builtinStaticallyKnownValue n || p.queryFunction n) = true) (hinv : CtxInv p c)
+    (iha : ∀ r c', evalArgs env1 c [] args = .ok (r, c') → (∀ u, r = .inl u → u.isUnk = false) →
+      evalArgs env2 c [] args = .ok (r, c') ∧ CtxInv p c')
+    (v : Value) (c' : ECtx) (hev : eval env1 c (.call (.var 0 [n]) args) = .ok (v, c')) (hne : v.isUnk = false) :
+    eval env2 c (.call (.var 0 [n]) args) = .ok (v, c') ∧ CtxInv p c' := by
+  obtain ⟨fv, h1, h2, hnp, hfv⟩ := callee_eval' p env1 env2 ag.callee c n hkn hinv
+  generalize Expr.var 0 [n] = f at h1 h2 hev ⊢
+  rw [eval, h1] at hev
+  rw [eval, h2]
+  simp only [hnp, Bool.false_eq_true, if_false] at hev ⊢
+  cases ha : evalArgs env1 c [] args with
+  | error m => rw [ha] at hev; cases hev
+  | ok x =>
+    obtain ⟨r, c1⟩ := x
+    rw [ha] at hev
+    cases r with
+    | inl u =>
+      simp only at hev
+      injection hev with hev; injection hev with hu hc; subst hu; subst hc
+      obtain ⟨e2, i2⟩ := iha _ _ ha (fun u' h => by injection h with h; rw [← h]; exact hne)
+      rw [e2]; exact ⟨rfl, i2⟩
+    | inr vs =>
+      obtain ⟨e2, i2⟩ := iha _ _ ha (fun u' h => by cases h)
+      rw [e2]
+      simp only at hev ⊢
+      rcases hfv with hfv | ⟨n', hfv⟩
+      · subst hfv
+        simp only at hev ⊢
+        have := map_ok_snd _ id _ _ _ hev
+        subst this
+        exact ⟨hev, i2⟩
+      · subst hfv
+        simp only [ag.fn] at hev ⊢
+        have := map_ok_snd _ id _ _ _ hev
+        subst this
+        exact ⟨hev, i2⟩
+
+set_option maxHeartbeats 4000000 in
+theorem eval_static_le (p : SKProvider) (hp : ProviderOK p) (env1 env2 : EvalEnv) (ag : AgreeLe p env1 env2) :
+    ∀ c e, staticallyKnown p e = true → CtxInv p c →
+      ∀ v c', eval env1 c e = .ok (v, c') → v.isUnk = false → eval env2 c e = .ok (v, c') ∧ CtxInv p c' := by
+  intro c e
+  apply eval.induct env1
+    (motive_1 := fun c e => staticallyKnown p e = true → CtxInv p c →
+      ∀ v c', eval env1 c e = .ok (v, c') → v.isUnk = false → eval env2 c e = .ok (v, c') ∧ CtxInv p c')
+    (motive_2 := fun c acc es => staticallyKnownAll p es = true → CtxInv p c →
+      ∀ r c', evalArgs env1 c acc es = .ok (r, c') → (∀ u, r = .inl u → u.isUnk = false) → evalArgs env2 c acc es = .ok (r, c') ∧ CtxInv p c')
+    (motive_3 := fun c last es => staticallyKnownAll p es = true → CtxInv p c →
+      ∀ v c', evalBlock env1 c last es = .ok (v, c') → v.isUnk = false → evalBlock env2 c last es = .ok (v, c') ∧ CtxInv p c')
+  all_goals (intros; try (rename_i hk hinv v' c'' hev hne; simp only [staticallyKnown, staticallyKnownAll, Bool.and_eq_true] at hk; first
+    | (simp_all [eval, evalArgs, evalBlock, isUnk_of_not_propagate, isUnk_failed, isUnk_void, isUnk_int, isUnk_str, isUnk_bool, isUnk_builtin, isUnk_asmBuiltin, isUnk_fn, isUnk_unknown]; done)
+    | (simp_all [eval, evalArgs, evalBlock, map_pair_ok, isUnk_of_not_propagate, isUnk_failed, isUnk_void, isUnk_int, isUnk_str, isUnk_bool, isUnk_builtin, isUnk_asmBuiltin, isUnk_fn, isUnk_unknown]; done)
+    | (simp_all [eval, evalArgs, evalBlock, map_pair_ok, isUnk_of_not_propagate, isUnk_failed, isUnk_void, isUnk_int, isUnk_str, isUnk_bool, isUnk_builtin, isUnk_asmBuiltin, isUnk_fn, isUnk_unknown]; obtain ⟨rfl, rfl⟩ := hev; simp_all [eval, evalArgs, evalBlock, map_pair_ok, isUnk_of_not_propagate, isUnk_failed, isUnk_void, isUnk_int, isUnk_str, isUnk_bool, isUnk_builtin, isUnk_asmBuiltin, isUnk_fn, isUnk_unknown]; done)
+    | skip))
+  case case4 =>
+    rename_i locals name hb hl
+    have ee : ∀ env : EvalEnv, eval env locals (.var 0 [name]) = (env.var 0 [name]).map (·, locals) := by
+      intro env; simp [eval, hb, hl]
+    rw [ee] at hev ⊢
+    obtain ⟨hv, hc⟩ := (map_pair_ok _ _ _ _).mp hev
+    subst hc
+    have hq : p.queryVariable 0 [name] = true := by
+      split at hk
+      · rename_i l hpl
+        have := hinv.2 name l hpl hk
+        rw [hl] at this; cases this
+      · exact hk
+    rw [ag.var 0 [name] hq v' hv (by intro e; subst e; simp [isUnk_unknown] at hne)]
+    exact ⟨rfl, hinv⟩
+  case case5 =>
+    rename_i locals level path hx
+    have ee : ∀ env : EvalEnv, eval env locals (.var level path) = (env.var level path).map (·, locals) := by
+      intro env; rw [eval]; exact hx
+    rw [ee] at hev ⊢
+    obtain ⟨hv, hc⟩ := (map_pair_ok _ _ _ _).mp hev
+    subst hc
+    have hq : p.queryVariable level path = true := by
+      first
+        | exact hk
+        | (split at hk
+           · rename_i n; exact absurd rfl (fun e => hx n rfl e)
+           · exact hk)
+    rw [ag.var level path hq v' hv (by intro e; subst e; simp [isUnk_unknown] at hne)]
+    exact ⟨rfl, hinv⟩
+  case case54 => simp_all [eval, evalArgs, evalBlock, map_pair_ok, isUnk_of_not_propagate, isUnk_failed, isUnk_void, isUnk_int, isUnk_str, isUnk_bool, isUnk_builtin, isUnk_asmBuiltin, isUnk_fn, isUnk_unknown]; split at hev <;> cases hev
+  case case55 =>
+    simp_all [eval, evalArgs, evalBlock, map_pair_ok, isUnk_of_not_propagate, isUnk_failed, isUnk_void, isUnk_int, isUnk_str, isUnk_bool, isUnk_builtin, isUnk_asmBuiltin, isUnk_fn, isUnk_unknown]
+    split at hev
+    · cases hev
+    · have := map_ok_snd _ _ _ _ _ hev; subst this; simp_all
+  case case14 =>
+    rename_i locals r name v locals1 hx hnp ih1
+    have hk' : staticallyKnown p (.var 0 [name]) = true ∧ staticallyKnown p r = true := by
+      simpa [staticallyKnown] using hk
+    have hnp' : v.shouldPropagate = false := by simpa using hnp
+    obtain ⟨e1, i1⟩ := ih1 hk'.2 hinv v locals1 hx (isUnk_of_not_propagate v hnp')
+    simp only [eval, e1, hx, hnp', Bool.false_eq_true, if_false] at hev ⊢
+    injection hev with hev; injection hev with h1 h2
+    subst h1; subst h2
+    exact ⟨rfl, CtxInv.setLocal hp i1 name v hk'.1⟩
+  case case65 | case67 | case68 | case69 | case70 =>
+    obtain ⟨n, hf, hka, hkn⟩ := call_known_inv p _ _ (by simpa [staticallyKnown] using hk)
+    subst hf
+    obtain ⟨fv, h1, h2, hnp, hfv⟩ := callee_eval' p env1 env2 ag.callee _ n hkn hinv
+    simp only [h1, Except.ok.injEq, Prod.mk.injEq, reduceCtorEq] at *
+    all_goals (
+      try (obtain ⟨rfl, rfl⟩ := ‹fv = _ ∧ _ = _›)
+      first
+        | (simp_all; done)
+        | exact call_static_le p env1 env2 ag _ n _ hkn hinv (by apply_assumption <;> assumption) _ _ hev hne)
+
 end Casm
